@@ -42,6 +42,7 @@ func (o obj) numeric() bool { return o.ver < nNumeric }
 func (o obj) String() string {
 	return fmt.Sprintf("%s@%s{l=%s}", keys[o.key], vers[o.ver], labels[o.label])
 }
+
 // real builds the API object.  Its UID follows the label, so that "same key, other content" also is "same name,
 // other UID" (an object deleted and re-created under its name): the cache keys by namespace/name only.
 func (o obj) real() metav1.Object {
